@@ -104,10 +104,10 @@ def step (s : Unit) (line : String) : Unit × String :=
       if L < 3 then some w else
       let w ← if strand ≠ "c" then runStrand NT AA g cfg w false d cuts else some w
       if strand ≠ "w" then
-        let rc ← match NT.revcomp dsq L with
-          | .ok (some r) => some r
-          | _ => none
-        runStrand NT AA g cfg w true ((rc.drop 1).take L) cuts
+        -- reverse strand in reading order = reversed complemented codes (C08 `revcomp_spec`: = esl_abc_revcomp)
+        let comp := NT.complement.getD []
+        let rc := d.reverse.map fun x => comp.getD x 255
+        runStrand NT AA g cfg w true rc cuts
       else some w
     match r with
     | none => (s, "fault")
